@@ -19,6 +19,7 @@ use std::{
 pub enum Exhausted {
     Fuel,
     Depth,
+    Memory,
 }
 
 /// Outcome of one observed `Instruction::exec`.
@@ -133,6 +134,17 @@ pub(crate) fn tick() {
         }
     });
 }
+
+/// Called before an array of `len` repeated elements is allocated: with a
+/// budget installed, a request beyond `MAX_REPEAT` ends the run as inconclusive
+/// (allocation failure would abort the process).
+pub(crate) fn alloc_guard(len: i64) {
+    if FUEL.with(Cell::get).is_some() && len > MAX_REPEAT {
+        resume_unwind(Box::new(Exhausted::Memory));
+    }
+}
+
+pub const MAX_REPEAT: i64 = 1 << 20;
 
 pub(crate) struct DepthGuard;
 
